@@ -73,6 +73,57 @@ M = [
  ("rt-strict-continue", ["C17"], "mosaik/scheduler.py",
   "        delta = rt_passed - (rt_factor * sim.last_step.time)\n        if delta > 0:", "        delta = rt_passed - (rt_factor * (sim.last_step.time + 1))\n        if delta > 0:",
   "too-slow check one slot too lenient"),
+ ("weak-tier-index", ["C01", "C02", "C09", "C11"], "mosaik/scenario.py",
+  "        list_tiers[cutoff - 1] = weak", "        list_tiers[-1] = weak",
+  "weak connection increments the deepest destination tier instead of the closest common group's"),
+ ("interval-add-ext", ["C08"], "mosaik/tiered_time.py",
+  "        if self.cutoff >= other.cutoff:\n            ext = other.ext", "        if self.cutoff > other.cutoff:\n            ext = other.ext",
+  "TieredInterval.__add__ wrong branch when cutoffs are equal"),
+ ("output-time-label", ["C02", "C01"], "mosaik/scheduler.py",
+  "        if output_time == sim.current_step.time:\n            output_tiered_time = sim.current_step", "        if output_time == sim.current_step.time and False:\n            output_tiered_time = sim.current_step",
+  "outputs at the step's own time lose their sub-time"),
+ ("pulled-needs-cache-only", ["C03", "C04"], "mosaik/scenario.py",
+  "        is_pulled = src_sim.outputs is not None and src.is_persistent(src_attr)", "        is_pulled = src_sim.outputs is not None",
+  "events are pulled from the cache too (repeated until overwritten) when the cache is on"),
+ ("initial-event-tiers", ["C02", "C05"], "mosaik/scenario.py",
+  "        sim.next_steps = [TieredTime(time) + sim.from_world_time]", "        sim.next_steps.append(TieredTime(time) + sim.from_world_time)",
+  "set_initial_event appends without heap order / keeps old schedule"),
+ ("async-input-delay", ["C16", "C01"], "mosaik/scenario.py",
+  "        dest_sim.input_delays[src_sim] = delay\n", "        dest_sim.input_delays.setdefault(src_sim, delay)\n",
+  "async_requests does not lower an existing (shifted) input delay"),
+ ("successors-to-wait-dropped", ["C16"], "mosaik/scheduler.py",
+  "    for suc_sim, adapt in sim.successors_to_wait_for.items():\n        futures.append(suc_sim.progress.has_reached(next_step + adapt))", "    for suc_sim, adapt in sim.successors_to_wait_for.items():\n        if lazy_stepping:\n            futures.append(suc_sim.progress.has_reached(next_step + adapt))",
+  "the wait for async agents is only done with lazy stepping"),
+ ("set-data-overwrite-entity", ["C16"], "mosaik/simmanager.py",
+  "                inputs = src_sim.inputs_from_set_data.setdefault(eid, {})", "                inputs = src_sim.inputs_from_set_data[eid] = src_sim.inputs_from_set_data.get(eid, {}) if len(attributes) > 1 else {}",
+  "a set_data call with one attribute drops the other pending attributes of that entity"),
+ ("group-path-sibling", ["C11", "C06"], "mosaik/scenario.py",
+  "            ascent = src_groups.index(dest)", "            ascent = [g.depth for g in src_groups].index(dest.depth)",
+  "groups identified by depth again (siblings equal)"),
+ ("cycle-check-skip-self", ["C06"], "mosaik/scenario.py",
+  "        for sim in self.sims.values():\n            for pred, delay in sim.input_delays.items():\n                sim_descs[pred][sim] = (delay, [pred, sim])", "        for sim in self.sims.values():\n            for pred, delay in sim.input_delays.items():\n                if pred is not sim:\n                    sim_descs[pred][sim] = (delay, [pred, sim])",
+  "self-connections are not seen by the cycle check"),
+ ("connect-src-attr-check", ["C11", "C12"], "mosaik/scenario.py",
+  "        if src_attr not in src.model_mock.output_attrs:", "        if src_attr not in src.model_mock.output_attrs and src_attr not in src.model_mock.input_attrs:",
+  "source attribute check also accepts input attributes (any_inputs models accept everything)"),
+ ("parse-attrs-hybrid-default", ["C12"], "mosaik/scenario.py",
+  "        default_measurements = None if 'trigger' in model_desc else inputs\n        default_events = None", "        default_measurements = None\n        default_events = None if 'trigger' in model_desc or 'non-trigger' in model_desc else inputs",
+  "hybrid default flipped: inputs are triggers by default"),
+ ("v3-adapter-kwargs", ["C15"], "mosaik/adapters.py",
+  "                request = (\"step\", args[0:2], kwargs)", "                request = (\"step\", args[0:2] if self._out.meta.get(\"api_version\", \"1\") != \"2.3\" else args, kwargs)",
+  "max_advance still sent to old simulators"),
+ ("explicit-version-ignored", ["C15"], "mosaik/adapters.py",
+  "    if explicit_version and version != explicit_version:", "    if explicit_version and version[0] != explicit_version[0]:",
+  "only the major version is compared with the configured api_version"),
+ ("stop-only-first", ["C14"], "mosaik/scenario.py",
+  "            for sim in self.sims.values():\n                self.loop.run_until_complete(sim.stop())", "            for sim in self.sims.values():\n                try:\n                    self.loop.run_until_complete(sim.stop())\n                except Exception:\n                    break",
+  "shutdown stops at the first simulator whose stop fails"),
+ ("rt-set-event-until", ["C17"], "mosaik/simmanager.py",
+  "        if event_time < self.world.until:", "        if event_time <= self.world.until:",
+  "event at == until scheduled without warning"),
+ ("randomly-cap", ["C18"], "mosaik/util.py",
+  "        if connects[dest] >= max_connects:", "        if connects[dest] > max_connects:",
+  "max_connects exceeded by one"),
 ]
 
 def main():
